@@ -574,7 +574,7 @@ func genProgram(r *rng, kind string, focus string) *program {
 			}
 			p.threads = append(p.threads, ops)
 		}
-	} else if focus == "" && r.chance(1, 3) {
+	} else if (focus == "" || focus == "reader") && r.chance(1, 3) {
 		// resize pressure: fill the table to the brink of a grow, then race an inserting thread (grow), a
 		// deleting thread (shrink) and/or Clear with the others
 		per := 3
@@ -597,18 +597,25 @@ func genProgram(r *rng, kind string, focus string) *program {
 				ins = append(ins, fmt.Sprintf("store extra%d %s", j, v()))
 			}
 		}
-		p.threads[0] = ins
+		wi := 0 // index of the inserting thread; thread 0 belongs to the reader in reader programs
+		if focus == "reader" {
+			wi = 1
+			for len(p.threads) < 3 {
+				p.threads = append(p.threads, nil)
+			}
+		}
+		p.threads[wi] = ins
 		if r.chance(1, 2) {
-			p.threads[1] = append([]string{"clear"}, p.threads[1]...)
-			if len(p.threads[1]) > 3 {
-				p.threads[1] = p.threads[1][:3]
+			p.threads[wi+1] = append([]string{"clear"}, p.threads[wi+1]...)
+			if len(p.threads[wi+1]) > 3 {
+				p.threads[wi+1] = p.threads[wi+1][:3]
 			}
 		} else {
 			var del []string
 			for j := 0; j < 1+r.intn(3); j++ {
 				del = append(del, fmt.Sprintf("delete k%d", r.intn(per*p.small)))
 			}
-			p.threads[1] = del
+			p.threads[wi+1] = del
 		}
 	}
 	switch focus {
@@ -804,6 +811,10 @@ func genProgram(r *rng, kind string, focus string) *program {
 			ops = append(ops, "count")
 		} else {
 			ops = append(ops, "size")
+		}
+		if r.chance(1, 3) {
+			// the solo run covers the reader's first pending call: let that be Size / Count as well
+			ops[0], ops[len(ops)-1] = ops[len(ops)-1], ops[0]
 		}
 		p.threads[0] = ops
 	}
